@@ -29,6 +29,8 @@ for d in sorted(glob.glob(ROOT + '/seeded/*')):
                 except Exception:
                     kinds.append('?')
             status = 'caught' if not nf else 'caught (no-failing-input-found)'
+            if any(str(k) in ('harness-build-failed', 'machinery-error') for k in kinds) and nf:
+                status = 'NOT-EVALUATED'   # the run never reached the oracle (e.g. scratch build broke for an unrelated reason)
             how = f"{'VIOLATION with concrete failing input' if not nf else 'VIOLATION no-failing-input-found (correspondence/proof broke, oracle found no failing input)'}; signatures {sorted(set(map(str, kinds)))}; {summary}"
         else:
             status = 'MISSED'; how = 'check exited 0: ' + summary
